@@ -26,6 +26,9 @@ func init() {
 			"behaviour of the three Session.Set implementations for duplicates (C14-C17).",
 		Run: runC05,
 		Mutants: []Mutant{
+			{Name: "setconfig-success-when-pools-unchanged", File: "speaker/main.go",
+				Old: "\tc.config = cfg\n\n\treturn controllers.SyncStateReprocessAll",
+				New: "\tsame := c.config != nil && c.config.Pools == cfg.Pools\n\tc.config = cfg\n\tif same {\n\t\treturn controllers.SyncStateSuccess\n\t}\n\n\treturn controllers.SyncStateReprocessAll", Expect: "RESYNC"},
 			{Name: "report-index-read-without-mask-length", File: "speaker/bgp_controller.go",
 				Old: "\t\t\tadSvcs := pfxToSvc[ad.Prefix.String()]\n", New: "\t\t\tadSvcs := pfxToSvc[ad.Prefix.IP.String()]\n", Expect: "REPORT-KEY"},
 			{Name: "label-change-judged-by-conflicts", File: "speaker/bgp_controller.go",
@@ -74,6 +77,9 @@ func runC05(p *chk.Prog, r *chk.Report) {
 	c05ReportKey(p, r)
 	// the node labels the selectors are evaluated against follow the node (LABEL-RESYNC, shared with C09)
 	c09NodeLabels(p, r)
+	// a configuration change that closes sessions is followed by a full pass over the services, which is what
+	// recomputes the reported peers (RESYNC, shared with C09)
+	c09Resync(p, r)
 }
 
 func c05Build(p *chk.Prog, r *chk.Report) {
@@ -289,11 +295,42 @@ func c05Publish(p *chk.Prog, r *chk.Report) {
 					return true
 				}
 				// the same selection written in place: the advertisements a of allAds with a.MatchesPeer(peer.cfg.Name)
-				if filteredList(f, g, e, f.IsObj(all), func(a func(ast.Expr) bool, pos bool) chk.Guard {
-					return g.GPat(pos, "A.MatchesPeer(P.cfg.Name)", chk.H("A", a), chk.H("P", peer))
-				}) {
+				isFiltered := func(x ast.Expr) bool {
+					return filteredList(f, g, x, f.IsObj(all), func(a func(ast.Expr) bool, pos bool) chk.Guard {
+						return g.GPat(pos, "A.MatchesPeer(P.cfg.Name)", chk.H("A", a), chk.H("P", peer))
+					})
+				}
+				if isFiltered(e) {
 					inPlaceFilter = true
 					return true
+				}
+				// ... or that list, with nil standing for it when it is empty (`if len(res) == 0 { return nil }; return res`)
+				if id, isId := ast.Unparen(e).(*ast.Ident); isId {
+					if vals, okV := g.ReachingValues(id, g.FactSite(id)); okV && len(vals) >= 1 {
+						var list ast.Expr
+						good := true
+						for _, v := range vals {
+							if v.Rhs != nil && !f.IsNilLit(v.Rhs) {
+								if list != nil && !f.SameExpr(list, v.Rhs) {
+									good = false
+								}
+								list = v.Rhs
+							}
+						}
+						if good && list != nil && isFiltered(list) {
+							for _, v := range vals {
+								if v.Rhs == nil {
+									good = false
+								} else if f.IsNilLit(v.Rhs) && !g.Dominated(v.Def, g.GPat(true, "len(L) == 0", chk.H("L", func(y ast.Expr) bool { return f.SameExpr(y, list) }))) {
+									good = false
+								}
+							}
+							if good {
+								inPlaceFilter = true
+								return true
+							}
+						}
+					}
 				}
 				return false
 			}
